@@ -704,6 +704,190 @@ theorem sort_ascending_stable_perm (lt : V → V → Bool) (ho : StrictTotal lt)
     exact List.pair_sublist_mergeSort (le := fun x y => !lessE lt ks y x) htr htot
       (by simpa using hxy) hsub
 
+/-! ### Go's insertion sort (`sort.Sort` for `Len <= 12`, `sort.Stable` for `Len <= 20`)
+
+Generic in the element type; needs only asymmetry and negative transitivity of `less` for
+sortedness, nothing at all for stability and for being a permutation. -/
+
+section insertion
+variable {α : Type}
+
+theorem bubble_perm (less : α → α → Bool) (acc : List α) (x : α) : (bubble less acc x).Perm (x :: acc) := by
+  induction acc with
+  | nil => exact List.Perm.refl _
+  | cons p ps ih =>
+    simp only [bubble]
+    split
+    · exact (ih.cons p).trans (List.Perm.swap x p ps)
+    · exact List.Perm.refl _
+
+theorem foldl_bubble_perm (less : α → α → Bool) (l acc : List α) :
+    (l.foldl (bubble less) acc).Perm (l ++ acc) := by
+  induction l generalizing acc with
+  | nil => exact List.Perm.refl _
+  | cons a l ih =>
+    rw [List.foldl_cons]
+    refine (ih _).trans ?_
+    refine ((bubble_perm less acc a).append_left l).trans ?_
+    simp
+
+theorem goInsertionSort_perm (less : α → α → Bool) (l : List α) : (goInsertionSort less l).Perm l := by
+  unfold goInsertionSort
+  refine (List.reverse_perm _).trans ?_
+  simpa using foldl_bubble_perm less l []
+
+/-- descending = the reversed sorted prefix -/
+def Desc (less : α → α → Bool) (acc : List α) : Prop := acc.Pairwise (fun p q => less p q = false)
+
+theorem bubble_desc (less : α → α → Bool)
+    (hasym : ∀ a b, less a b = true → less b a = false)
+    (hnt : ∀ a b c, less b a = false → less c b = false → less c a = false)
+    (acc : List α) (x : α) (h : Desc less acc) : Desc less (bubble less acc x) := by
+  induction acc with
+  | nil => simp [bubble, Desc]
+  | cons p ps ih =>
+    unfold Desc at h ih ⊢
+    rw [List.pairwise_cons] at h
+    simp only [bubble]
+    cases hl : less x p
+    · simp only [Bool.false_eq_true, if_false]
+      rw [List.pairwise_cons]
+      refine ⟨?_, List.pairwise_cons.2 h⟩
+      intro q hq
+      rcases List.mem_cons.1 hq with rfl | hq
+      · exact hl
+      · exact hnt q p x (h.1 q hq) hl
+    · simp only [if_true]
+      rw [List.pairwise_cons]
+      refine ⟨?_, ih h.2⟩
+      intro q hq
+      have := (bubble_perm less ps x).mem_iff.1 hq
+      rcases List.mem_cons.1 this with rfl | hq
+      · exact hasym _ _ hl
+      · exact h.1 q hq
+
+theorem foldl_bubble_desc (less : α → α → Bool)
+    (hasym : ∀ a b, less a b = true → less b a = false)
+    (hnt : ∀ a b c, less b a = false → less c b = false → less c a = false)
+    (l acc : List α) (h : Desc less acc) : Desc less (l.foldl (bubble less) acc) := by
+  induction l generalizing acc with
+  | nil => exact h
+  | cons a l ih => rw [List.foldl_cons]; exact ih _ (bubble_desc less hasym hnt acc a h)
+
+theorem goInsertionSort_sorted (less : α → α → Bool)
+    (hasym : ∀ a b, less a b = true → less b a = false)
+    (hnt : ∀ a b c, less b a = false → less c b = false → less c a = false) (l : List α) :
+    (goInsertionSort less l).Pairwise (fun x y => less y x = false) := by
+  unfold goInsertionSort
+  rw [List.pairwise_reverse]
+  exact foldl_bubble_desc less hasym hnt l [] List.Pairwise.nil
+
+theorem sublist_bubble (less : α → α → Bool) (acc : List α) (x : α) : acc.Sublist (bubble less acc x) := by
+  induction acc with
+  | nil => exact List.nil_sublist _
+  | cons p ps ih =>
+    simp only [bubble]
+    split
+    · exact ih.cons_cons p
+    · exact List.sublist_cons_self _ _
+
+theorem sublist_foldl_bubble (less : α → α → Bool) (l acc : List α) :
+    acc.Sublist (l.foldl (bubble less) acc) := by
+  induction l generalizing acc with
+  | nil => exact List.Sublist.refl _
+  | cons a l ih => rw [List.foldl_cons]; exact (sublist_bubble less acc a).trans (ih _)
+
+theorem pair_sublist_bubble (less : α → α → Bool) (acc : List α) (x y : α) (hx : x ∈ acc)
+    (hxy : less y x = false) : [y, x].Sublist (bubble less acc y) := by
+  induction acc with
+  | nil => cases hx
+  | cons p ps ih =>
+    simp only [bubble]
+    cases hl : less y p
+    · simp only [Bool.false_eq_true, if_false]
+      exact (List.singleton_sublist.2 hx).cons_cons y
+    · simp only [if_true]
+      rcases List.mem_cons.1 hx with rfl | hx
+      · rw [hl] at hxy; cases hxy
+      · exact (ih hx).cons p
+
+theorem pair_sublist_foldl (less : α → α → Bool) (l acc : List α) (x y : α) (hx : x ∈ acc) (hy : y ∈ l)
+    (hxy : less y x = false) : [y, x].Sublist (l.foldl (bubble less) acc) := by
+  induction l generalizing acc with
+  | nil => cases hy
+  | cons b l ih =>
+    rw [List.foldl_cons]
+    rcases List.mem_cons.1 hy with rfl | hy
+    · exact (pair_sublist_bubble less acc x y hx hxy).trans (sublist_foldl_bubble less l _)
+    · exact ih _ ((bubble_perm less acc b).mem_iff.2 (List.mem_cons_of_mem _ hx)) hy
+
+theorem pair_sublist_foldl' (less : α → α → Bool) (l acc : List α) (x y : α) (hs : [x, y].Sublist l)
+    (hxy : less y x = false) : [y, x].Sublist (l.foldl (bubble less) acc) := by
+  induction l generalizing acc with
+  | nil => cases hs
+  | cons a l ih =>
+    rw [List.foldl_cons]
+    cases hs with
+    | cons _ h => exact ih _ h
+    | cons_cons _ h =>
+      exact pair_sublist_foldl less l _ x y ((bubble_perm less acc x).mem_iff.2 List.mem_cons_self)
+        (List.singleton_sublist.1 h) hxy
+
+theorem goInsertionSort_stable (less : α → α → Bool) (l : List α) (x y : α) (hs : [x, y].Sublist l)
+    (hxy : less y x = false) : [x, y].Sublist (goInsertionSort less l) := by
+  unfold goInsertionSort
+  have := (pair_sublist_foldl' less l [] x y hs hxy).reverse
+  simpa using this
+
+/-- `Len`/`Swap` of the generated type: `Swap(i, j)` exchanges exactly positions `i` and `j` -/
+theorem swap_spec (s s' : List α) (i j : Nat) (h : swap s i j = some s') :
+    s'.length = s.length ∧ ∀ k, s'[k]? = if k = j then s[i]? else if k = i then s[j]? else s[k]? := by
+  unfold swap at h
+  cases hi : s[i]? with
+  | none => simp [hi] at h
+  | some x =>
+    cases hj : s[j]? with
+    | none => simp [hi, hj] at h
+    | some y =>
+      simp [hi, hj] at h
+      subst h
+      refine ⟨by simp, ?_⟩
+      intro k
+      have hjl : j < s.length := by
+        cases Nat.lt_or_ge j s.length with
+        | inl h => exact h
+        | inr h => rw [List.getElem?_eq_none h] at hj; cases hj
+      have hil : i < s.length := by
+        cases Nat.lt_or_ge i s.length with
+        | inl h => exact h
+        | inr h => rw [List.getElem?_eq_none h] at hi; cases hi
+      by_cases hkj : k = j
+      · subst hkj; simp [hjl]
+      · by_cases hki : k = i
+        · subst hki
+          have : ¬ j = k := fun e => hkj e.symm
+          simp [hkj, this, hil]
+        · have h1 : ¬ j = k := fun e => hkj e.symm
+          have h2 : ¬ i = k := fun e => hki e.symm
+          simp [hkj, hki, h1, h2]
+
+end insertion
+
+/-- **C08, "so sort.Sort yields an ascending permutation and sort.Stable keeps ties in input
+order"** — proved for the slice sizes at which Go's `sort.Sort` (`Len <= 12`) and `sort.Stable`
+(`Len <= 20`) are the insertion sort modelled by `goInsertionSort`; for longer slices the
+contract of package `sort` is trusted (and observed by the correspondence run). -/
+theorem go_insertionSort_with_generated_less (lt : V → V → Bool) (ho : StrictTotal lt) (ks : List Key)
+    (l : List (Elem V ks)) :
+    (goInsertionSort (lessE lt ks) l).Perm l ∧
+    (goInsertionSort (lessE lt ks) l).Pairwise (fun x y => lessE lt ks y x = false) ∧
+    (∀ x y, [x, y].Sublist l → lessE lt ks y x = false →
+      [x, y].Sublist (goInsertionSort (lessE lt ks) l)) := by
+  refine ⟨goInsertionSort_perm _ l, ?_, fun x y hs hxy => goInsertionSort_stable _ l x y hs hxy⟩
+  apply goInsertionSort_sorted
+  · intro a b h; exact lex_asymm lt ho ks a.1 b.1 h
+  · intro a b c h1 h2; exact lex_neg_trans lt ho ks a.1 b.1 c.1 b.2 c.2 h1 h2
+
 /-! ### the pinned commit: where the statement fails, and where it does not -/
 
 theorem retOfLegacy_eval_ne (lt : V → V → Bool) (k : Key) (a b : Rec V)
